@@ -75,6 +75,12 @@ def interleave (previous : Option Nat) : List RTrivia → List RTrivia
     if gap != 0 then gapTrivia gap :: t :: interleave previous' rest
     else t :: interleave previous' rest
 
+/-- no two consecutive comments are two or more lines apart -/
+def smallGaps (previous : Option Nat) : List RTrivia → Bool
+  | [] => true
+  | t :: rest =>
+    decide (gapOf previous t.line ≤ 1) && smallGaps (if t.line.isSome then t.line else previous) rest
+
 /-- the writer operations for a list of leading trivia -/
 def trivOps (l : List RTrivia) : List Op := l.map fun t => Op.trivia t.comment t.text
 
